@@ -82,6 +82,7 @@ AtomicMove<SlotType, BUFFER_SIZE> {
     fn publish_movable(&self, item: SlotType) -> (Option<NonZeroU32>, Option<SlotType>) {
         match self.leak_slot_internal(|| false) {
             Some( (slot_ref, slot_id, _len_before) ) => {
+                #[cfg(feature = "verif")] crate::verif::yield_point("ring.slot_write");
                 unsafe { ptr::write(slot_ref, item); }
                 self.publish_leaked_internal(slot_id);
                 (NonZeroU32::new(self.len_after_publishing(slot_id)), None)
@@ -102,6 +103,7 @@ AtomicMove<SlotType, BUFFER_SIZE> {
 
         match self.leak_slot_internal(report_full_fn) {
             Some( (slot_ref, slot_id, _len_before) ) => {
+                #[cfg(feature = "verif")] crate::verif::yield_point("ring.slot_write");
                 setter_fn(slot_ref);
                 self.publish_leaked_internal(slot_id);
                 report_len_after_enqueueing_fn(self.len_after_publishing(slot_id));
@@ -144,6 +146,7 @@ AtomicMove<SlotType, BUFFER_SIZE> {
     fn consume_movable(&self) -> Option<SlotType> {
         match self.consume_leaking_internal(|| false) {
             Some( (slot_ref, slot_id, _len_before) ) => {
+                #[cfg(feature = "verif")] crate::verif::yield_point("ring.slot_read");
                 let item = unsafe { Some(ptr::read(slot_ref)) };
                 self.release_leaked_internal(slot_id);
                 item
